@@ -95,21 +95,27 @@ func (r *rwRT) ruleRangeDispatch() {
 		info         AV
 		ctor         string // expected seq constructor, "" = left native, "reject"
 		slice        bool
+		named        bool // the operand has a defined type (type Ints []int): the dispatch goes by its underlying type
 	}
 	kinds := []tk{
-		{"string", "Basic", info("IsString"), "NewStringIter", false},
-		{"integer", "Basic", info("IsInteger"), "NewIntegerIter", false},
-		{"float", "Basic", info("IsFloat"), "", false},
-		{"array", "Array", nil, "NewSliceIter", true},
-		{"slice", "Slice", nil, "NewSliceIter", false},
-		{"map", "Map", nil, "NewMapIter", false},
-		{"chan", "Chan", nil, "NewChanIter", false},
-		{"func", "Signature", nil, "reject", false},
-		{"pointer", "Pointer", nil, "", false},
-		{"interface", "Interface", nil, "", false},
+		{"string", "Basic", info("IsString"), "NewStringIter", false, false},
+		{"integer", "Basic", info("IsInteger"), "NewIntegerIter", false, false},
+		{"float", "Basic", info("IsFloat"), "", false, false},
+		{"array", "Array", nil, "NewSliceIter", true, false},
+		{"slice", "Slice", nil, "NewSliceIter", false, false},
+		{"map", "Map", nil, "NewMapIter", false, false},
+		{"chan", "Chan", nil, "NewChanIter", false, false},
+		{"func", "Signature", nil, "reject", false, false},
+		{"pointer", "Pointer", nil, "", false, false},
+		{"interface", "Interface", nil, "", false, false},
+		{"slice of a defined type", "Slice", nil, "NewSliceIter", false, true},
+		{"map of a defined type", "Map", nil, "NewMapIter", false, true},
+		{"string of a defined type", "Basic", info("IsString"), "NewStringIter", false, true},
 	}
-	var curType AV
+		var curType AV
 	var curInfo AV
+	var curUnder types.Type
+	curNamed := false
 	d := r.newApplyDriver(fn, []AV{Sym{Name: "r", NN: true}, Sym{Name: "block", NN: true}},
 		rwConfig{root: fn, boundaries: map[string]bool{"rewriteRanges": false}},
 		map[string]AV{"r.yieldAst.seqImportedName": mkString("seq")},
@@ -122,6 +128,9 @@ func (r *rwRT) ruleRangeDispatch() {
 				return []Answer{{Ret: []AV{curType}, NoEvent: true}}
 			case "Underlying":
 				if len(cc.Args) == 1 {
+					if curNamed {
+						return []Answer{{Ret: []AV{Dyn{T: curUnder, V: Sym{Name: "ty.underlying", NN: true}}}, NoEvent: true}}
+					}
 					return []Answer{{Ret: []AV{Dyn{T: curType.(Dyn).T, V: cc.Args[0]}}, NoEvent: true}}
 				}
 			case "Info":
@@ -148,6 +157,10 @@ func (r *rwRT) ruleRangeDispatch() {
 	for _, k := range kinds {
 		st := d.base.clone()
 		curType = Dyn{T: tptr(k.goType), V: Sym{Name: "ty", NN: true}}
+		curNamed, curUnder = k.named, tptr(k.goType)
+		if k.named {
+			curType = Dyn{T: tptr("Named"), V: Sym{Name: "ty", NN: true}}
+		}
 		curInfo = k.info
 		nRef, n := r.heapNode(st, "RangeStmt", map[string]AV{"Key": exprLeaf(r, "n.Key"), "Value": Nil{}, "Tok": r.tokConst("DEFINE"), "X": exprLeaf(r, "n.X"), "Body": leafSym("n.Body")})
 		_ = nRef
@@ -218,11 +231,11 @@ func (r *rwRT) ruleRangeDispatch() {
 				if okKind {
 					switch u := pt.At(0).Type().Underlying().(type) {
 					case *types.Basic:
-						okKind = (k.name == "string" && u.Info()&types.IsString != 0) || (k.name == "integer" && u.Info()&types.IsInteger != 0)
+						okKind = (strings.HasPrefix(k.name, "string") && u.Info()&types.IsString != 0) || (k.name == "integer" && u.Info()&types.IsInteger != 0)
 					case *types.Slice:
-						okKind = k.name == "slice" || k.name == "array"
+						okKind = strings.HasPrefix(k.name, "slice") || k.name == "array"
 					case *types.Map:
-						okKind = k.name == "map"
+						okKind = strings.HasPrefix(k.name, "map")
 					case *types.Chan:
 						okKind = k.name == "chan"
 					default:
